@@ -144,6 +144,8 @@ structure Prog where
   consts : List (String × Val)
   /-- the enum definitions of the program (an enum literal names its type only) -/
   enums : List (String × Variants) := []
+  /-- the declared types of the constants -/
+  constTys : List (String × Ty) := []
 
 def Prog.enum? (p : Prog) (name : String) : Option Variants := (p.enums.find? (·.1 == name)).map (·.2)
 
